@@ -1,7 +1,7 @@
 """C16 -- read_asdf returns exactly the requested particle columns."""
 import ast
 
-from ..core.srcmodel import dotted, unparse, walk_no_nested, AnalysisError, names_in, stores_in, fold_str
+from ..core.srcmodel import clone, dotted, unparse, walk_no_nested, AnalysisError, names_in, stores_in, fold_str
 
 RA = 'abacusnbody/data/read_abacus.py'
 BP = 'abacusnbody/data/bitpacked.py'
@@ -262,7 +262,7 @@ def decoder_call(src, dec):
                     if ds and len({unparse(d.value) for d in ds}) == 1 and not isinstance(ds[-1].value, ast.Call):
                         return ast.parse(resolved(ds[-1].value, ds[-1].lineno, depth + 1), mode='eval').body
                 return n_
-        return unparse(_R().visit(_c.deepcopy(e)))
+        return unparse(_R().visit(clone(e)))
     cs = [n for n in walk_no_nested(fn) if isinstance(n, ast.Call) and dotted(n.func) == dec]
     ok = len(cs) == 1
     why = f'{len(cs)} calls'
